@@ -233,13 +233,13 @@ var propSpecs = []propSpec{
 	{
 		id: "C20",
 		runs: []runSpec{
-			{dir: "types", entry: "ZZC20", quick: []int{12, 22, 32}, thorough: []int{13, 23, 33, 42}},
+			{dir: "types", entry: "ZZC20", quick: []int{12, 22, 32}, thorough: []int{13, 23, 33}},
 			{dir: "types", entry: "ZZC20Conv", quick: []int{4}, thorough: []int{6}},
 			{dir: "types", entry: "ZZC20Float", quick: []int{0}, thorough: []int{0}},
 		},
 		covers:  []string{"sequence", "pool-reuse", "absent-key", "present-key", "conversion", "int-ok", "bool-ok", "float"},
 		bounds:  "every sequence of <= 3 operations from {Set, Delete, Reset, Destroy+NewContext, Params().Set, Destroy + a late write by the old holder + NewContext} with keys from {a, b, any 1-byte string} and values of <= 2 arbitrary bytes, then Count/Get/Exists/String/MustString/Range and the typed accessors for an arbitrary probe key against a shadow association list; Int/Uint/Bool and their Must* variants against strconv executed symbolically from its own SSA on every string of <= 4 bytes plus 27 edge-case seeds (overflow boundaries, signs, underscores, hex, NaN/Inf); Float/MustFloat against strconv.ParseFloat on the 27 seeds",
-		boundsT: "sequences of <= 4 operations, conversion strings <= 6 bytes",
+		boundsT: "sequences of <= 3 operations with values <= 3 bytes, conversion strings <= 6 bytes",
 		outside: "Float on arbitrary strings (strconv.ParseFloat is only run natively on concrete seeds); longer values",
 		assume:  []string{"sync.Pool returns the most recently released context (the case the 'starts empty' clause is about)"},
 		stubs:   append(append([]string{}, stdStubs...), "strconv.ParseInt/ParseUint/ParseBool: executed from their own SSA; strconv.ParseFloat: the real function on concrete strings; strconv.ErrSyntax/ErrRange: opaque distinct error values"),
